@@ -96,7 +96,7 @@ PROPS = {
         "trusted_base": ["vendored thrift compact/binary protocol writers and the generated ttypes.go are modelled by hand (Tally/Model/Thrift.lean) and tied by byte-for-byte differential only"],
     },
     "C07": {
-        "suites": ["c07lock", "c07conc", "c07alias", "scopeseq", "scope-c07seq", "c09sub"],
+        "suites": ["c07lock", "c07conc", "c07alias", "scopeseq", "scope-c07seq", "c09sub", "allocfault"],
         "assumptions": COMMON_ASSUME + [
             "Model.Registry models one shard and one counter per scope (counters of one scope do not interact); keys are raw spellings with an arbitrary idempotent sanitizer on keys as a parameter, a scope is registered under its sanitized key and under the raw keys that asked for it, exactly as registry.Subscope does; raw and sanitized key of one request live in the same shard in the code (the shard is chosen by the raw key), several shards are covered sequentially by Model.Scope",
             "lock-protected regions without a schedule point are single atomic steps; Go's RWMutex gives mutual exclusion and no lock is taken recursively",
@@ -210,7 +210,7 @@ PROPS = {
         "timeout": {"quick": 300, "thorough": 3000},
     },
     "C13": {
-        "suites": ["c13", "c13fault", "c12conc"],
+        "suites": ["c13", "c12", "c13fault", "c12conc"],
         "assumptions": COMMON_ASSUME + [
             "a concurrent history is represented by the order in which its sends on metCh, its tag-cache accesses and its clock stores took effect (the queue totally orders the sends; cache and interner are lock protected and monotone); the bounded queue only delays senders",
             "the harness logs reports per producer goroutine; emitted metrics are matched to log entries by name and kind in per-producer order (names are distinct per producer), values / tags / timestamps of the matched pairs are then judged clause by clause; tally.internal.* telemetry sent by Flush is excluded from the matching",
